@@ -463,14 +463,37 @@ func envReloadRound(r *hutil.Rng, pool []string, round int) {
 		return
 	}
 	a.WaitDone(id4, 30*time.Second)
+	// ... and one that only adds a variable at each level
+	pe4, te4 := map[string]string{}, map[string]string{}
+	for k, v := range pe3 {
+		pe4[k] = v
+	}
+	for k, v := range te3 {
+		te4[k] = v
+	}
+	pe4["VB"] = "pipe-v4:added"
+	te4["v_lower"] = "task-v4:added"
+	defs4 := map[string]PipeDef{"r": {Concurrency: 1, Env: pe4, Tasks: map[string]TaskDef{"a": {Env: te4, Script: append([]string{"true"}, script...)}}}}
+	if err := a.WriteDefs(defs4); err != nil {
+		emit(map[string]interface{}{"kind": "error", "round": round, "what": err.Error()})
+		return
+	}
+	time.Sleep(400 * time.Millisecond)
+	v5 := mkVars("reload-5")
+	id5, _, _ := a.Schedule("r", v5)
+	if id5 == "" {
+		emit(map[string]interface{}{"kind": "error", "round": round, "what": "reload round: schedule after the addition failed"})
+		return
+	}
+	a.WaitDone(id5, 30*time.Second)
 	for j, x := range []struct {
 		id   string
 		pe   map[string]string
 		te   map[string]string
 		vars map[string]interface{}
-	}{{id1, pe1, te1, v1}, {id2, pe1, te1, v2}, {id3, pe2, te2, v3}, {id4, pe3, te3, v4}} {
+	}{{id1, pe1, te1, v1}, {id2, pe1, te1, v2}, {id3, pe2, te2, v3}, {id4, pe3, te3, v4}, {id5, pe4, te4, v5}} {
 		rec := checkTaskEnv(a, pool, baseEnv, round, j, x.id, "r", x.pe, "a", x.te, x.vars)
-		rec["reload"] = []string{"running during reload", "queued during reload", "scheduled after reload", "scheduled after a reload that only renames variables"}[j]
+		rec["reload"] = []string{"running during reload", "queued during reload", "scheduled after reload", "scheduled after a reload that only renames variables", "scheduled after a reload that only adds variables"}[j]
 		emit(rec)
 	}
 }
